@@ -674,7 +674,7 @@ func (h *HR) emitLifetime(lt *lifetime, out func(string, string), st *hlib.Stats
 	r := hlib.NewRand(uint64(len(recs))*7919 + uint64(h.seq))
 	var jobs []*imgJob2
 	imgRoot := filepath.Join(c.work, "img")
-	nplain, ninfl := 0, 0
+	nplain, ninfl, nfi := 0, 0, 0
 	seen := map[uint64]bool{}
 	nack := make([]int, len(recs))
 	na := 0
@@ -690,6 +690,21 @@ func (h *HR) emitLifetime(lt *lifetime, out func(string, string), st *hlib.Stats
 		}
 		infl := len(rc.img.inflight) > 0
 		limit := 0
+		if all && h.Mode.Faults {
+			// thorough tier of the stream `faults`: the cases are many; every second record with files in flight gets the
+			// larger boundary set, the others two variants; every second plain record
+			if infl {
+				nfi++
+				if nfi%2 == 0 {
+					limit = 2
+				}
+			} else {
+				nplain++
+				if nplain%2 != 0 {
+					continue
+				}
+			}
+		}
 		if !all {
 			if infl {
 				// quick tier: every third record with files in flight gets its whole (boundary) variant set, the others two variants
@@ -1008,7 +1023,7 @@ func (h *HR) Gen(r *hlib.Rand, tier string, scale int, emit func(string)) {
 	}
 	cases := 8 * scale
 	if tier == "thorough" {
-		cases = 16 * scale
+		cases = 8 * scale // as many cases, but: every record imaged, every prefix length, longer histories, 4 forks per case to depth 3
 	}
 	tok := 0
 	for ci := 0; ci < cases; ci++ {
